@@ -31,8 +31,13 @@ RULE = (
 ASSUMPTIONS = [
     "twins are spawned as subprocesses (python -m vf.props.c19 <job.json>) in their own scratch directory with the same relative file path",
     "programs address headers by index (header names in these files are deliberately awkward)",
+    "the configuration is part of the job: the [errors] policy of config.ini is drawn per case and is the same in the history and in every twin",
 ]
 ODD_HEADERS = ['"xy', '"q" r', "x,y", " lead", "it's", "semi;colon", "two  spaces", "tab\there", "pipe|d", "back`tick", 'mid"quote']
+
+
+# [errors] csvpath = ... of config.ini, the same for the history and for every twin
+POLICIES = [["collect", "print"], ["collect", "print"], ["collect"], ["collect", "fail"], ["print", "fail"], ["raise", "collect"], ["quiet", "collect"]]
 
 
 def budget(tier):
@@ -45,8 +50,11 @@ def observers(draw):
     comps = [["f", "push", [], [["t", "o_tl"], ["f", "total_lines", [], []]]],
              ["f", "push", [], [["t", "o_hc"], ["f", "count_headers", [], []]]],
              ["f", "push", [], [["t", "o_cl"], ["f", "count_lines", [], []]]]]
-    k = draw(st.sampled_from(["none", "none", "append", "reset"]))
-    if k == "append":
+    k = draw(st.sampled_from(["none", "none", "append", "reset", "error"]))
+    if k == "error":
+        # a run-time argument error on every line (column 0 holds text): what happens to it is configuration
+        comps.append(["=", "ez", [], None, ["f", "add", [], [["hi", 0], ["t", 1]]]])
+    elif k == "append":
         comps.append(["f", "append", [], [["t", "extra"], ["hi", 0]]])
     elif k == "reset":
         comps.append(["->", ["==", ["f", "line_number", [], []], ["t", 2]], ["f", "reset_headers", [], []]])
@@ -89,14 +97,21 @@ def _case(draw):
         t2 = draw(progs.tables(min_rows=1, max_rows=6))
         at = draw(st.integers(1, njobs - 1))
         k = jobs[at]["file"]
-        rewrite = {"before_job": at, "file": k, "records": t2["records"]}
+        same_size = draw(st.booleans()) and len(tables[k]["cols"]) >= 2
+        if same_size:
+            # the same bytes in another order (first two columns swapped): same path, same size, and the
+            # harness pins the new modification time 1 ms after the old one
+            t2 = {"cols": [tables[k]["cols"][1], tables[k]["cols"][0]] + list(tables[k]["cols"][2:]),
+                  "records": [([r[1], r[0]] + list(r[2:])) if len(r) >= 2 else list(r) for r in tables[k]["records"]]}
+        rewrite = {"before_job": at, "file": k, "records": t2["records"], "same_size": same_size}
         for j in range(at, njobs):
             if jobs[j]["file"] == k:
                 prog = draw(progs.programs(t2, kinds=("b", "assign", "se"), max_comps=2, depth=1))
                 prog["comps"] = observers(draw) + c20.by_index(prog["comps"], t2["cols"])
                 jobs[j] = {"file": k, "prog": prog, "scan": draw(progs.scans(t2)), "via": draw(st.sampled_from(["CsvPath", "CsvPaths", "CsvPaths"]))}
     return {"files": files, "jobs": jobs, "warm": draw(st.booleans()), "repeat": draw(st.integers(0, njobs - 1)), "rewrite": rewrite,
-            "delimiter": draw(st.sampled_from([",", ",", ";", "|"]))}
+            "delimiter": draw(st.sampled_from([",", ",", ";", "|"])),
+            "policy": draw(st.sampled_from(POLICIES))}
 
 
 def strategy(tier):
@@ -119,10 +134,10 @@ def run_job(job, rel, cps=None, delimiter=","):
     return json.loads(json.dumps(out, default=str))
 
 
-def twin(job, records, fname, delimiter=","):
+def twin(job, records, fname, delimiter=",", policy=None):
     """run one job alone in a fresh process with an empty cache"""
     # the twin is always created directly (CsvPath()): the property also says the creation route does not matter
-    payload = json.dumps({"job": dict(job, via="CsvPath"), "records": records, "fname": fname, "delimiter": delimiter})
+    payload = json.dumps({"job": dict(job, via="CsvPath"), "records": records, "fname": fname, "delimiter": delimiter, "policy": policy})
     env = dict(os.environ)
     env.pop("CSVPATH_CONFIG_PATH", None)
     r = subprocess.run([sys.executable, "-m", "vf.props.c19"], input=payload, capture_output=True, text=True,
@@ -145,8 +160,10 @@ def warm_cache(files, sb, delimiter=","):
 def run_case(case, sb):
     files = [dict(f) for f in case["files"]]
     dl = case.get("delimiter", ",")
+    policy = case.get("policy") or ["collect", "print"]
+    sb.write_config(policy)
     rels = [sb.write_csv(f["name"], f["records"], delimiter=dl) for f in files]
-    labels = [f"delimiter:{dl}"]
+    labels = [f"delimiter:{dl}", "policy:" + "+".join(policy)]
     if case["warm"]:
         warm_cache(files, sb, dl)
         labels.append("warm-cache")
@@ -162,8 +179,17 @@ def run_case(case, sb):
         rw = case.get("rewrite")
         if rw and rw["before_job"] == j:
             current[rw["file"]] = rw["records"]
+            fp = os.path.join(sb.root, rels[rw["file"]])
+            st0 = os.stat(fp)
             sb.write_csv(files[rw["file"]]["name"], rw["records"], delimiter=dl)
             labels.append("path-rewritten")
+            if rw.get("same_size"):
+                if os.stat(fp).st_size != st0.st_size:
+                    raise RuntimeError("same-size rewrite changed the size")
+                ms = 1_000_000
+                ns = st0.st_mtime_ns + ms if st0.st_mtime_ns % 1_000_000_000 < 900_000_000 else st0.st_mtime_ns - ms
+                os.utime(fp, ns=(ns, ns))
+                labels.append("path-rewritten-same-size-same-second")
         k = job["file"]
         used[k] = used.get(k, 0) + 1
         shared = shared or used[k] >= 2
@@ -171,8 +197,10 @@ def run_case(case, sb):
         got = run_job(job, rels[k], cps if job["via"] == "CsvPaths" else None, dl)
         key = core.case_hash({"job": dict(job, via="CsvPath"), "records": current[k]})
         if key not in twins:
-            twins[key] = twin(job, current[k], files[k]["name"], dl)
+            twins[key] = twin(job, current[k], files[k]["name"], dl, policy)
         exp = twins[key]
+        if got["errors"]:
+            labels.append("run-time-errors")
         if got != exp:
             diff = {f: {"in_history": got[f], "fresh_process": exp[f]} for f in KEYS if got[f] != exp[f]}
             problems.append({"job": j, "via": job["via"], "csvpath": common.text_of(job["prog"], rels[k], job["scan"]),
@@ -209,7 +237,7 @@ def _main():
             real.run_path(f"$data/{f['fname']}[*][yes()]", csvpaths=cps)
         print(json.dumps({"ok": True}))
         return
-    sb = Sandbox(tag="c19twin")
+    sb = Sandbox(tag="c19twin", policy=payload.get("policy") or None)
     try:
         assert_repo_code()
         sb.reset()
